@@ -12,7 +12,8 @@ RULE = ("a distinfo recording 1-4 files (DIST_SUBDIR names sharing tails, patch 
 FUNCTIONAL = True
 ASSUMPTIONS = ["File::open / metadata().len() / the file system are not modelled: the harness writes real files under a private temp dir and chdir()s into it",
                "digest functions: Python hashlib as reference (see C13)"]
-CONTENTS = [b"", b"x", b"hello\n", b"no newline", b"\x00\x01\xff\xfe", b"$NetBSD: patch-aa,v 1.1 $\n\n--- a\n+++ b\n", b"a\n$NetBSD$\nb\n", b"a\nb $NetBSD$\n", b"\n", b"ab" * 100]
+CONTENTS = [b"", b"x", b"hello\n", b"no newline", b"\x00\x01\xff\xfe", b"$NetBSD: patch-aa,v 1.1 $\n\n--- a\n+++ b\n", b"a\n$NetBSD$\nb\n", b"a\nb $NetBSD$\n", b"\n", b"ab" * 100,
+            b"a\n$$NetBSD$$\nb\n", b"$N$NetBSD\nk\n", b"$5 and $NetBSD: y $\nkeep\n"]
 
 
 def model_post(c, o):
@@ -84,6 +85,10 @@ def generate(rng, tier):
         up = h.upper() if rng.random() < 0.5 else "".join(ch.upper() if (ch.isalpha() and rng.random() < 0.3) else ch for ch in h)
         if up != h:
             cases.append(Case("di.verify", [enc(text.replace(h.encode(), up.encode(), 1)), enc(nm), enc(content), str(sums[0][0])], meta={"kind": "bad-record-case", "nt": True}))
+        # a recorded hash that is a proper prefix of the digest, the empty hash, or the digest plus one more character
+        for kind2, h2 in (("bad-record-prefix", h[:-1]), ("bad-record-half", h[: len(h) // 2]), ("bad-record-longer", h + "0"), ("bad-record-empty", "")):
+            if rng.random() < 0.6:
+                cases.append(Case("di.verify", [enc(text.replace((") = " + h + "\n").encode(), (") = " + h2 + "\n").encode(), 1)), enc(nm), enc(content), str(sums[0][0])], meta={"kind": kind2, "nt": True}))
         bad2 = text.replace(b") = %d bytes" % len(content), b") = %d bytes" % (len(content) + 1))
         cases.append(Case("di.verify", [enc(bad2), enc(nm), enc(content), "S"], meta={"kind": "bad-size-record", "nt": True}))
         cases.append(Case("di.find", [enc(text), enc(b"x/y/" + nm)], meta={"kind": "find", "nt": True}))
